@@ -158,6 +158,31 @@ def scan_ambient():
             out.append((rel(p), enclosing_fn(src, m.start()), m.group(1), re.sub(r'\s+', ' ', line)[:90]))
     return sorted(set(out))
 
+PROFILE_RX = re.compile(r'\b(debug_assert(?:_eq|_ne)?!|cfg!\s*\(\s*debug_assertions|cfg\s*\(\s*(?:not\s*\(\s*)?debug_assertions|cfg!\s*\(\s*(?!feature)\w+|overflow_checks|target_(?:os|arch|family|pointer_width|endian|env|vendor|feature|has_atomic))')
+def scan_profile():
+    """T3c: code that exists under one build profile / target only (debug assertions, cfg!(...) other than features).
+    Here the line is kept WITH its string literals: the reviewed inventory pins the exact expression, which must be
+    free of effects (a `debug_assert!(map.insert(..).is_none())` would make the output depend on the profile)."""
+    out = []
+    for p in files():
+        raw = open(p).read()
+        src = blank_comments_strings(raw)
+        for m in PROFILE_RX.finditer(src):
+            a = m.start()
+            # the whole macro call / attribute up to the closing parenthesis
+            j = src.find('(', a); d = 0; k = j
+            while k < len(src):
+                if src[k] == '(':
+                    d += 1
+                elif src[k] == ')':
+                    d -= 1
+                    if d == 0:
+                        break
+                k += 1
+            text = re.sub(r'\s+', ' ', raw[a:k + 1])[:160]
+            out.append((rel(p), enclosing_fn(src, a), re.sub(r'\W+$', '', m.group(1)), text))
+    return sorted(set(out))
+
 # ------------------------------------------------------------------ Coq output
 def q(s):
     return '"' + s.replace('"', '""') + '"'
@@ -170,6 +195,7 @@ def generate(extra_sections=None):
     ps = scan_panic()
     decls, iters = scan_hash()
     amb = scan_ambient()
+    prof = scan_profile()
     parts = ['(** GENERATED by tools/scan.py from /repo/src on every run -- do not edit. *)',
              'From Coq Require Import List String.', 'Import ListNotations.', 'Open Scope string_scope.', '',
              '(** T2: panic-capable sites (file, enclosing fn, kind, normalised line) *)',
@@ -178,7 +204,9 @@ def generate(extra_sections=None):
              'Definition hash_decls : list (string * string * string) := %s.' % coq_list(decls),
              'Definition hash_iterations : list (string * string * string * string) := %s.' % coq_list(iters), '',
              '(** T3b: ambient inputs (file, fn, what, line) *)',
-             'Definition ambient : list (string * string * string * string) := %s.' % coq_list(amb), '']
+             'Definition ambient : list (string * string * string * string) := %s.' % coq_list(amb), '',
+             '(** T3c: code compiled under one build profile / target only (file, fn, what, full text) *)',
+             'Definition profile_code : list (string * string * string * string) := %s.' % coq_list(prof), '']
     for s in (extra_sections or []):
         parts.append(s)
     txt = '\n'.join(parts) + '\n'
@@ -187,7 +215,7 @@ def generate(extra_sections=None):
     if old != txt:
         with open(OUT, 'w') as f:
             f.write(txt)
-    return dict(panic_sites=len(ps), hash_decls=len(decls), hash_iterations=len(iters), ambient=len(amb), changed=(old != txt))
+    return dict(panic_sites=len(ps), hash_decls=len(decls), hash_iterations=len(iters), ambient=len(amb), profile_code=len(prof), changed=(old != txt))
 
 def extra():
     try:
